@@ -33,6 +33,8 @@ STATE_GUARDS = [
     ("MC_RandomState_guard_reset_keeps_cache_LawTransparentH.cfg", "LawTransparentH"),
     ("MC_RandomState_guard_reset_keeps_cache_LawResetClears.cfg", "LawResetClears"),
     ("MC_RandomState_guard_draw_drops_cache_LawTransparentH.cfg", "LawTransparentH"),
+    ("MC_RandomState_guard_copy_drops_hidden_state_LawTransparentH.cfg", "LawTransparentH"),
+    ("MC_RandomState_guard_copy_drops_hidden_state_LawCopyKeeps.cfg", "LawCopyKeeps"),
 ]
 PER_CHUNK = 40000
 JUDGES = min(vlib.NCPU, 12)
@@ -243,7 +245,7 @@ def model_checks(ctx):
     def sguard(g):
         cfg, inv = g
         r = vlib.tlc("MCRandomState", cfg, workers=2, timeout=1500, tag="MCRandomState_" + cfg, xmx="1500m")
-        if inv not in r.invariant_violated:
+        if inv not in r.invariant_violated and not (inv == "LawCopyKeeps" and r.property_violated):
             raise vlib.Infra("vacuity guard: %s did not violate %s" % (cfg, inv))
         return {"cfg": cfg, "violates": inv}
     ctx.extra["vacuity_guards"] = vlib.parallel(guard, GUARDS, workers=5) + vlib.parallel(sguard, STATE_GUARDS, workers=4)
